@@ -7,7 +7,8 @@
 (* the harness brackets every call with its own readings, so the cycle the limiter saw is any     *)
 (* cycle between Cyc(a) and Cyc(b) (not before the cycle of the previous call) - TLC searches.    *)
 (* The reply must be the one the contract demands (Allowed: admitted iff every carried debt is     *)
-(* below its limit); with KeepHist = TRUE (short traces) WindowBound is evaluated as well.         *)
+(* below its limit); that this rule is WindowBound is model-checked on RateLimiterMqtt (the        *)
+(* ground-truth history is not kept here: KeepHist = FALSE).                                       *)
 EXTENDS RateLimiterMqtt, Json, TLC, IOUtils
 
 TLog == ndJsonDeserialize(IOEnv.VERIF_TRACE)
